@@ -157,6 +157,7 @@ def apply(prog):
                         prog.bodies.append(c2)
                 nxt += 1
         nb.name = b.name
+        nb._orig_blocks = len([1 for k in b.blocks.values() if not k.cleanup])
         idx = prog.bodies.index(b)
         prog.bodies[idx] = nb
         prog.normalised['inlined'].setdefault(b.name, [])
